@@ -170,6 +170,8 @@ impl<DBWT: Borrow<BWT>, DLess: Borrow<Less>, DOcc: Borrow<Occ>> SuffixArray
                     // mapping inaccuracy when there are multiple sentinels
                     // This branch should rarely be triggered so the performance impact
                     // of hashmap lookups would be low
+                    #[cfg(feature = "verif-hooks")]
+                    crate::verif::hit("sampled_sa.extra_row");
                     return Some(self.extra_rows[&pos] + offset);
                 }
 
@@ -271,6 +273,8 @@ pub fn suffix_array(text: &[u8]) -> RawSuffixArray {
             sais.construct(&transform_text::<u8>(text, &alphabet, sentinel_count))
         }
         a if a <= std::u16::MAX as usize => {
+            #[cfg(feature = "verif-hooks")]
+            crate::verif::hit("sais.u16_alphabet");
             sais.construct(&transform_text::<u16>(text, &alphabet, sentinel_count))
         }
         a if a <= std::u32::MAX as usize => {
@@ -576,6 +580,8 @@ impl Sais {
                 // backup lms_pos
                 let lms_pos = self.lms_pos.clone();
                 // recurse SA construction for reduced text
+                #[cfg(feature = "verif-hooks")]
+                crate::verif::hit("sais.recurse");
                 self.construct(&reduced_text);
                 // obtain sorted lms suffixes
                 self.lms_pos.clear();
